@@ -277,7 +277,7 @@ func init() {
 			if cv, ok := i.eng.Cfg.Concrete[full]; ok {
 				fmt.Sscanf(cv, "%x", &k)
 			} else {
-				k = i.choose(n, "vChoose "+full)
+				k = i.chooseK(n, 'v')
 			}
 			nd.conc = []uint64{uint64(k)}
 			return k
